@@ -4,8 +4,9 @@
 
    kinds "pll.history" (general histories), "pll.large" (large-but-legal inputs:
    offsets of hours, gaps of 1 ns and of days, slews at the clamp; judged like
-   pll.history) and "pll.longgap" (additionally: every Adjust duration > 0,
-   without the 2^32 s bound -- the known finding):
+   pll.history) and "pll.longgap" (histories whose last gap exceeds the int64
+   wrap of 9223372036 s: the known finding; the oracle is the same strict one --
+   every duration > 0 -- the suppression is done by KNOWN_FINDINGS.txt):
      args  = six integers per update, flat:
              now_ns epoch offset_ns weight_bits dt_bits pow_bits
              (dt_bits/pow_bits: the harness' own dt = now.Sub(previous
@@ -83,8 +84,24 @@ Fixpoint queries_ok (qs : list (option f64)) (us : list (upd * Z)) : bool :=
   | _, _ => false
   end.
 
+(* kind "pll.epochsrc": facts read off the source of the real clock driver and of
+   pll.go by the harness (go/ast), as integers:
+     [epoch++ statements at the top level of SystemClock.Step;
+      other writes to the epoch field in Step;
+      writes to the epoch field in Adjust; in Sleep; in Now; in Drift; anywhere else in the file;
+      pll.go imports golang.org/x/sys/unix; pll.go imports syscall;
+      SystemClock.Adjust panics on duration < 0]
+   The fake clock of the harness (Step starts a new epoch, nothing else does) and
+   the claim that Pll.Do reaches the machine clock only through the interface
+   rest on the first nine; the tenth is recorded (it says what the real driver
+   does with the negative duration of the known finding). *)
+Definition epochsrc_expected : list value :=
+  [VZ 1; VZ 0; VZ 0; VZ 0; VZ 0; VZ 0; VZ 0; VZ 0; VZ 0; VZ 1].
+Definition epochsrc_ok (o : list value) : bool :=
+  values_eqb (firstn 9 o) (firstn 9 epochsrc_expected) && (length o =? 10)%nat.
+
 Definition glue_C19 (k : string) (a o : list value) : option verdict :=
-  if is k "pll.history" || is k "pll.large" then
+  if is k "pll.history" || is k "pll.large" || is k "pll.longgap" then
     match parse_updates (S (length a)) a with
     | None => None
     | Some uds =>
@@ -98,22 +115,8 @@ Definition glue_C19 (k : string) (a o : list value) : option verdict :=
                     v_oracle := C19_ok tr; v_expected := expected |}
         end
     end
-  else if is k "pll.longgap" then
-    (* the duration clause of the property at full strength (no bound on the gap between updates) *)
-    match parse_updates (S (length a)) a with
-    | None => None
-    | Some uds =>
-        let us := map fst uds in
-        let expected := map (fun ue => VL (map value_of_event (snd ue))) (pll_run pll_init us) in
-        match observed_trace us o with
-        | None => Some (relational false true)
-        | Some tr =>
-            let durations_positive :=
-              forallb (fun ue => forallb (fun e => match e with EAdjust _ dur _ => 0 <? dur | _ => true end) (snd ue)) tr in
-            Some {| v_known := true; v_agree := values_eqb expected o;
-                    v_oracle := C19_ok tr && durations_positive; v_expected := expected |}
-        end
-    end
+  else if is k "pll.epochsrc" then
+    Some (functional epochsrc_expected o (epochsrc_ok o))
   else None.
 
 Definition run_case (k : string) (a o : list value) : verdict :=
